@@ -877,6 +877,21 @@ func generate(rn *runner, r *hx.Rng, thorough bool) {
 			rn.do("dec " + pickS(r, "bytes", "str", "raw", "big", "u64", "S,bytes", "any", "S,raw") + " " + mh)
 		}
 	}
+	// (i) integers with leading zeros / single-byte forms in every integer reader (rarely produced by mutation)
+	for _, h := range []string{"00", "8100", "8101", "817f", "8180", "820001", "8200ff", "820100", "83000001", "8800ffffffffffffff", "88ffffffffffffffff", "890100000000000000ff", "80", "01", "7f", "02"} {
+		for _, t := range []string{"u8", "u16", "u32", "u64", "bool", "big"} {
+			rn.do("dec " + t + " " + h)
+		}
+		rn.do("stream auto " + h + " " + pickS(r, "u8", "u16", "u32", "u64", "t") + ",k")
+		b, _ := hx.UnHex(h)
+		enc, _ := rlp.EncodeToBytes([]interface{}{rlp.RawValue(b), rlp.RawValue(b)})
+		eh := hx.Hex(enc)
+		rn.do("dec S,u64 " + eh)
+		rn.do("dec S,bool " + eh)
+		rn.do("dec R2,big,u8 " + eh)
+		rn.do("stream auto " + eh + " l,u64,t,e")
+		rn.do("stream auto " + eh + " l,t,u8,e")
+	}
 	// (r) RawValue / Stream.Raw at every position of small lists built from known parts (empty string,
 	// empty list, single bytes, short/long strings, nested lists), alone and mixed with typed readers
 	for _, c := range rawFamily(r, thorough) {
@@ -937,6 +952,13 @@ func generate(rn *runner, r *hx.Rng, thorough bool) {
 				continue
 			}
 			rn.do("dec " + ts + " " + hx.Hex(enc))
+			// accepted inputs are the minority of the typed stream: two more well-formed ones per value
+			for j := 0; j < 2; j++ {
+				v2 := genVal(r, t, true, 0)
+				if e2, ok := encodeText(t, v2); ok {
+					rn.do("dec " + ts + " " + hx.Hex(e2))
+				}
+			}
 			for j := 0; j < 4; j++ {
 				m := mutate(r, enc)
 				rn.do("dec " + ts + " " + hx.Hex(m))
